@@ -135,6 +135,9 @@ fn eval(ctx: &Ctx, case: &Case) -> Verdict {
             2 => Some(crate::props::common::Projection { m: vec![2; pops], individuals: true }),
             _ => None,
         },
+        // with a projection, ask for every digit: sums of floating-point contributions must come out
+        // the same whatever the container, transport, thread count or process
+        precision: if variant == 1 || variant == 2 { Some(17) } else { None },
         strict: variant == 3,
         verbose: if variant == 4 { 2 } else { 0 },
         quiet: if variant == 5 { 1 } else { 0 },
@@ -236,14 +239,14 @@ fn eval(ctx: &Ctx, case: &Case) -> Verdict {
         pass.add_label("large-cohort");
     }
     pass.add_label(format!("populations={}", case.map.pop_sizes().len()));
-    pass.add_label(format!("extra-option={}", ["none", "--project-shape 2..", "-p 1..", "--strict", "-vv", "-q", "none"][variant as usize]));
+    pass.add_label(format!("extra-option={}", ["none", "--project-shape 2.. --precision 17", "-p 1.. --precision 17", "--strict", "-vv", "-q", "none"][variant as usize]));
     Ok(pass)
 }
 
 pub fn check(ctx: &Ctx) -> Check {
     let parts: Vec<Box<dyn Part>> = vec![Box::new(RandomPart {
         name: "containers-transports-threads",
-        rule: "diploid call sets (incl. large cohorts of 120..400 samples so that 64 KiB blocks occur, ~12% call sets that make the run fail, and a quarter with one genotype written as a lone `.`) rendered as vcf / bgzf-vcf / bgzf-bcf / raw bcf with generated BGZF layouts (one line per block, 1-byte blocks, cuts inside lines and BCF records, 64 KiB payloads, stored/compressed, empty blocks first/middle/last, with and without EOF marker) x {path, stdin from file, stdin from pipe, a pipe named by path (/dev/stdin), a named pipe (mkfifo)} x BCF dictionaries with GT at index 5 or above 127 x --threads from {1,2,3,4,8,16} x repeated executions (unpinned, pinned to one CPU, pinned to two CPUs) x one further option per case (none / --project-shape / -p / --strict / -vv / -q) x four environments (Turkish/German locale, exotic time zone, RUST_LOG=trace, HOME unset-like, forced colour); >=3 populations of unequal size: ALL executions of a case must have byte-identical stdout and equal exit status (~24 executions per case); non-trivial = an input of >=3 BGZF blocks",
+        rule: "diploid call sets (incl. large cohorts of 120..400 samples so that 64 KiB blocks occur, ~12% call sets that make the run fail, and a quarter with one genotype written as a lone `.`) rendered as vcf / bgzf-vcf / bgzf-bcf / raw bcf with generated BGZF layouts (gzip header fields as htslib writes them or with a time stamp / compression hint / OS byte, one line per block, 1-byte blocks, cuts inside lines and BCF records, 64 KiB payloads, stored/compressed, empty blocks first/middle/last, with and without EOF marker) x {path, stdin from file, stdin from pipe, a pipe named by path (/dev/stdin), a named pipe (mkfifo)} x BCF dictionaries with GT at index 5 or above 127 x --threads from {1,2,3,4,8,16} x repeated executions (unpinned, pinned to one CPU, pinned to two CPUs) x one further option per case (none / --project-shape or -p, printed with 17 decimals / --strict / -vv / -q) x four environments (Turkish/German locale, exotic time zone, RUST_LOG=trace, HOME unset-like, forced colour); >=3 populations of unequal size: ALL executions of a case must have byte-identical stdout and equal exit status (~24 executions per case); non-trivial = an input of >=3 BGZF blocks",
         cases: ctx.tier.pick(120, 3000),
         strategy: Box::new(|| strategy().boxed()),
         eval: Box::new(eval),
